@@ -42,7 +42,12 @@ RULE = (
     "stored order, reducer) drawn by Hypothesis, teneye enumerated over ndims in {2,4,6} x size 1..3; oracle = the "
     "object rebuilt from the request with NumPy / a Python dict of lists.  Non-trivial: non-cubical shape (dense "
     "generators, diagonals, from_function), element vector shorter or longer than a mode (diagonals), a request of "
-    "more than half the tensor size (random sparse), at least one repeated subscript and unsorted input (aggregator)."
+    "more than half the tensor size (random sparse), at least one repeated subscript and unsorted input (aggregator).  "
+    "Round 2: every generator is called twice with the same arguments, the first result overwritten in between (random ones "
+    "under the same seed with an unrelated request in between), both results judged; shapes as int32 / uint8 arrays, numpy "
+    "scalars and tuples of numpy integers; element vectors, aggregated values and subscripts in integer / boolean dtypes "
+    "(subscripts also at the top of uint8 / uint16); counts as numpy scalars; reducers by name and as NumPy callable; "
+    "exact cancellation of general floats; values scaled by 1e-6 / 1e+6; F-ordered and strided subscript arrays."
 )
 ASSUMPTIONS = [
     "teneye: T x^(m-1) = x for unit x is checked with |got - x| <= 1e-12 (the rounding of ||x|| = 1 and of a sum of "
@@ -53,6 +58,12 @@ ASSUMPTIONS = [
     "sparse tensor whatever the generator does)",
     "density requests: the advertised count is density*size rounded either way (|nnz - density*size| < 1); count "
     "requests >= 1: floor(nonzeros); fractions < 1 given as nonzeros: ceil(fraction*size) (docstring of from_function)",
+    "sptenrand(nonzeros=...) is given Python numbers or np.float64 only: it rejects numpy integer scalars by an explicit "
+    "isinstance(nonzeros, (int, float)) test (reported, not listed); sptensor.from_function takes them",
+    "the first result is overwritten through the object's own assignment interface; if that assignment raises the result "
+    "simply stays as it was (assignment is C04's subject)",
+    "uint8 aggregated values: a group is compared only when its exact result fits a byte (wrap-around of the accumulator is "
+    "NumPy's arithmetic, not the constructor's)",
 ]
 
 _SHAPE_FORMS = ["tuple", "list", "ndarray", "ndarray-col", "npint-list", "ndarray-int32", "ndarray-uint8", "npint32-tuple",
